@@ -535,9 +535,6 @@ func (s *SessionState) startNCP() {
 		s.applyProfileDNS()
 	}
 
-	if s.IPv4Address == nil {
-		s.IPv4Address = net.ParseIP("100.64.0.1")
-	}
 	if s.DNS1 == nil {
 		s.DNS1 = net.ParseIP("8.8.8.8")
 	}
@@ -545,11 +542,22 @@ func (s *SessionState) startNCP() {
 		s.DNS2 = net.ParseIP("8.8.4.4")
 	}
 
-	s.ipcp.SetPeerAddress(s.IPv4Address)
-	s.ipcp.SetDNS(s.DNS1, s.DNS2)
+	// Only negotiate IPCP when the session really owns an IPv4 address
+	// (allocated from a pool or reserved for it). Handing every subscriber
+	// without one the same constant would give two live sessions the same
+	// address; without an address IPv4 simply stays down (IPv6CP may still
+	// open the session).
+	if isUsableSubscriberIPv4(s.IPv4Address) {
+		s.ipcp.SetPeerAddress(s.IPv4Address)
+		s.ipcp.SetDNS(s.DNS1, s.DNS2)
 
-	s.ipcp.FSM().Up()
-	s.ipcp.FSM().Open()
+		s.ipcp.FSM().Up()
+		s.ipcp.FSM().Open()
+	} else {
+		s.IPv4Address = nil
+		s.component.logger.Warn("No IPv4 address available, IPCP not started",
+			"session_id", s.SessionID)
+	}
 
 	// Set the IPv6CP local interface identifier deterministically from the
 	// BNG-side MAC so the negotiated link-local matches the source the RA / NA
@@ -561,6 +569,11 @@ func (s *SessionState) startNCP() {
 
 	s.ipv6cp.FSM().Up()
 	s.ipv6cp.FSM().Open()
+}
+
+func isUsableSubscriberIPv4(ip net.IP) bool {
+	v4 := ip.To4()
+	return v4 != nil && !v4.IsUnspecified()
 }
 
 func (s *SessionState) allocateFromPool() {
